@@ -4,6 +4,8 @@ import OmplModel.Proofs.HeapPos
 import OmplModel.Proofs.HeapAudit
 import OmplModel.Proofs.ReverseQueue
 import OmplModel.Proofs.ForwardQueueRule
+import OmplModel.Proofs.HeapFull
+import OmplModel.Proofs.HeapSpec
 /-!
 # C11 — the updatable heap always pops in order, whatever was removed or updated
 
@@ -453,5 +455,95 @@ theorem forwardQueue_pop_rule (f : Option Nat) (l : List OmplModel.FwdQ.Row) (i 
 /-- non-vacuity: three rows, factor 2: the least-effort row is outside the inflated best estimate, the best estimate is not
 below the inflated lower bound, so the (last) minimal-lower-bound row is selected -/
 example : OmplModel.FwdQ.front (some 2) [⟨10, 10, 5⟩, ⟨3, 30, 1⟩] = some 1 := by decide
+
+/-! ## Round 10 — the whole class as coded, and the abstract heap of the property text
+
+`Model/HeapFull.lean` is `BinaryHeap` with nothing abstracted: hole-moving `percolateUp` / `percolateDown` WITH every
+`->position` store, `removePos`, `build`, all public member functions in the code's statement order (`insert(vector)`
+with `pos = i + n`, `buildFrom` with `newElement(list[i], i)`, `remove` / `update` addressed through `element->position`,
+`sort` on separate elements) and the callback log.  `drv_heap` runs it next to the search/swap model against the real
+template and prints positions and callbacks from it. -/
+
+/-- **The class as coded refines the model all order theorems are about, over the FULL operation alphabet** (this
+supersedes `position_field_refines_search`, which covered insert / remove / update / pop with swap-based sifting): for
+every sequence of insert / insert(vector) / remove / update / pop / key changes + rebuild / buildFrom / sort / clear that
+respects the API contract (`LiveAll`: handles passed in are live), the as-coded state machine holds exactly the array of
+the handle-search model, has handed out the same handles, and every element's position field equals its index (as a
+`Prop` and as the Bool audit `drv_heap` prints as `ps=`). -/
+theorem whole_class_refines_search (lt : κ → κ → Bool) (ops : List (Op κ)) (L : LiveAll lt Heap.empty ops) :
+    let F := ({} : FHeap κ).run lt ops
+    F.arr = (reach lt ops).arr ∧ F.next = (reach lt ops).next ∧ PosSync F.arr F.pos ∧ posConsistent F.arr F.pos = true := by
+  intro F
+  have R := (run_frel lt ops {} Heap.empty empty_frel empty_wf L).1
+  exact ⟨R.arr, R.next, R.sync, (posConsistent_iff_posSync _ _).mpr R.sync⟩
+
+/-- non-vacuity: a contract-respecting sequence that uses every operation kind, handles included -/
+example : LiveAll ltNat' (Heap.empty : Heap Nat)
+    [.insert 5, .setKey 0 3, .pokeRebuild [(0, 7)], .insertMany [3, 9], .remove 0, .pop, .buildFrom [4, 2], .sort [1], .clear] := by
+  simp only [LiveAll, and_true, true_and]
+  refine ⟨?_, ?_, ?_⟩
+  · apply live_of_liveB
+    simp [liveB, Heap.step, Heap.insert, Heap.empty, siftUp]
+  · intro c hc; simp only [List.mem_singleton] at hc; subst hc; apply live_of_liveB
+    simp [liveB, Heap.step, Heap.insert, Heap.empty, Heap.setKey, findIdx, siftUp, siftDown, List.findIdx?_cons]
+  · apply live_of_liveB
+    simp [liveB, Heap.step, Heap.insert, Heap.empty, Heap.setKey, Heap.pokeRebuild, Heap.insertMany, findIdx, siftUp, siftDown,
+      build, buildLoop, pokeAll, ltNat', List.findIdx?_cons]
+
+/-- **the property's two order clauses hold for the class as coded**: after every contract-respecting operation sequence
+the as-coded array passes the heap audit, its top is a minimum of its contents, and popping it (the as-coded `removePos(0)`
+loop, `drainF`) yields a permutation of the contents without inversion. -/
+theorem as_coded_top_min_pops_sorted {lt : κ → κ → Bool} (h : SWO lt) (ops : List (Op κ)) (L : LiveAll lt Heap.empty ops) :
+    let F := ({} : FHeap κ).run lt ops
+    heapOrdered lt F.arr = true ∧ topIsMin lt F.arr = true ∧
+      (drainF lt F.arr.size F.arr F.pos).Perm F.arr.toList ∧ Sorted lt (drainF lt F.arr.size F.arr F.pos) := by
+  intro F
+  have R := (run_frel lt ops {} Heap.empty empty_frel empty_wf L).1
+  have hA : heapOrdered lt F.arr = true := by rw [R.arr]; exact reachable_audit_true h ops
+  have hp := audit_pops_sorted h F.arr hA
+  rw [drainF_eq lt _ _ _ R.sync R.dist]
+  exact ⟨hA, (audit_top_is_min h _ hA).1, hp.1, hp.2.1⟩
+
+/-- **callbacks**: over a contract-respecting run the class fires exactly one `eventAfterInsert_` per element created by
+`insert` / `insert(vector)` (in creation order, with the new handle) and one `eventBeforeRemove_` per `remove(handle)` —
+and nothing for `pop`, `buildFrom`, `rebuild`, `update`, `sort`, `clear` (`evRun` / `evOf`: the specification read off the
+abstract model).  GridB learns its handles through the first callback. -/
+theorem callbacks_fire_as_specified (lt : κ → κ → Bool) (ops : List (Op κ)) (L : LiveAll lt Heap.empty ops) :
+    (({} : FHeap κ).run lt ops).log.toList = evRun lt Heap.empty ops := by
+  have := (run_frel lt ops {} Heap.empty empty_frel empty_wf L).2
+  simpa using this
+
+/-- non-vacuity: the log of a run with every callback-relevant operation -/
+example : evRun ltNat' (Heap.empty : Heap Nat) [.insert 5, .insertMany [3, 9], .remove 1, .pop, .buildFrom [4], .clear] =
+    [.ins 0, .ins 1, .ins 2, .rem 1] := by
+  simp [evRun, evOf, Heap.step, Heap.insert, Heap.insertMany, Heap.empty, List.range']
+
+/-- **`sort` as coded** (fresh elements with their own position fields, `build`, the `removePos(0)` loop) returns what the
+model's `sort` returns, hence (by `sort_correct`) a sorted permutation of its argument. -/
+theorem sort_as_coded {lt : κ → κ → Bool} (h : SWO lt) (F : FHeap κ) (ks : List κ) :
+    (F.sort lt ks).Perm ks ∧ (F.sort lt ks).Pairwise (fun x y => lt y x = false) := by
+  rw [sortF_eq lt F Heap.empty ks]
+  exact ⟨(sort_correct h Heap.empty ks).1, (sort_correct h Heap.empty ks).2.1⟩
+
+/-- **Refinement to the abstract heap of the property text** (a finite map handle ↦ key, `Spec`): every finite operation
+sequence of the model is a run of the abstract heap (`SpecRun`: insert adds a fresh handle, insert(vector)/buildFrom add
+consecutive fresh handles, `remove(h)` deletes exactly the elements with handle `h`, `update` re-keys exactly handle `h`,
+`pop` deletes SOME minimum, rebuild re-keys, clear empties, sort changes nothing), ending in an abstract state with the
+same contents as a multiset.  Consequently **the size equals the number of live elements**, live handles are pairwise
+distinct and all handed out — for every history, every key type and every strict weak order. -/
+theorem refines_multiset {lt : κ → κ → Bool} (h : SWO lt) (ops : List (Op κ)) :
+    ∃ A : Spec κ, SpecRun lt {} ops A ∧ (reach lt ops).arr.toList.Perm A.live ∧ (reach lt ops).next = A.next ∧
+      (reach lt ops).arr.size = A.live.length ∧ (A.live.map (·.h)).Nodup ∧ ∀ e ∈ A.live, e.h < A.next := by
+  obtain ⟨A, r, p, n⟩ := run_sim h ops Heap.empty {} empty_wf
+    (by intro c hc; exact absurd hc (Nat.not_lt_zero _)) ⟨by simp [Heap.empty], rfl⟩
+  have W := (reachable_inv h ops).2
+  refine ⟨A, r, p, n, by have := p.length_eq; simp only [Array.length_toList] at this; exact this, (p.map _).nodup_iff.mp W.nodup, ?_⟩
+  intro e he
+  rw [← n]; exact W.bound e (p.mem_iff.mpr he)
+
+/-- non-vacuity / the abstract run of a concrete history: handle 1 is removed, handle 0 re-keyed, then the minimum popped -/
+example : SpecRun ltNat ({} : Spec Nat) [.insert 5, .insert 3, .remove 1, .setKey 0 2, .pop] ⟨[], 2⟩ :=
+  .cons (.insert _ 5) (.cons (.insert _ 3) (.cons (.remove _ 1) (.cons (.setKey _ 0 2)
+    (.cons (.pop _ ⟨0, 2⟩ [] (by simp [rekey]) (by simp [rekey, ltNat])) (.nil _)))))
 
 end OmplModel.Props.C11
